@@ -556,7 +556,8 @@ def _apply_oracles(obs, case, spec, flat, cfg, task, before_cfg, before_task, mo
     # initial population distinctness (continuous-only tasks; DESIGN C11 iv): agents drawn by _generate_agents while the
     # population is being initialised must not be exact copies of one another (interior points only: points clipped
     # to a bound may legitimately coincide)
-    if obs["strict"]:
+    # (not judged on user-defined gridded variables or on bounds a few ulp wide, where the space has few distinct points)
+    if obs["strict"] and all(len(v) == 3 and v[2] - v[1] >= 1e-6 for v in flat):
         for req, got, phase, positions in mon.generated_init:
             ipts = [json.dumps(canon(p)) for p in positions if all(v[1] < c < v[2] for c, v in zip(p, flat))]
             st["init_points"] = st.get("init_points", 0) + len(ipts)
